@@ -254,7 +254,7 @@ def judge(ctx, o):
 FS = 1 << 18   # integer units per unit of time for the float family; Eps units of slack
 
 
-def float_family(ctx, n_cfg, n_scripts):
+def float_family(ctx, n_cfg, n_scripts, presets=None):
     """Random NON-dyadic parameters (incl. the defaults 0.7 / 1.3): random outcome scripts are run through the real
     loop; the runs are merged into a prefix tree with values rounded to 1/FS; M_TimeStepper judges the clauses with
     equalities read as 'within Eps'."""
@@ -262,7 +262,12 @@ def float_family(ctx, n_cfg, n_scripts):
 
     r = ctx.rng
     jobs = []
-    for ci in range(n_cfg):
+    presets = list(presets or [])
+    for ci in range(n_cfg + len(presets)):
+        if ci >= n_cfg:
+            cfg = presets[ci - n_cfg]
+            jobs.append((cfg, _float_runs(r, cfg, n_scripts)))
+            continue
         k = r.randint(2, 6)
         t = r.choice([0.0, 0.3, 2.5])
         sched = [t]
@@ -279,6 +284,34 @@ def float_family(ctx, n_cfg, n_scripts):
             continue
         cfg = dict(sched=sched, dt_init=r.choice(cand), dt_min=dt_min, dt_max=dt_max, under=under, over=over,
                    recomp=r.choice([0.5, 0.3, 0.75]), recomp_max=r.randint(1, 4))
+        jobs.append((cfg, _float_runs(r, cfg, n_scripts)))
+    return jobs
+
+
+def near_miss_configs(r, n):
+    """Schedules with LARGE times and a constant step that lands a hair short of every scheduled time: relative gap
+    between 2e-7 and 4e-6, far above the manager's own tolerance (rtol 1e-10) and far below numpy's default (1e-5).
+    The code must then take one tiny extra step onto the scheduled time.  Times stay below 3400 so that FS * time fits
+    TLC's 32-bit integers."""
+    out = []
+    for _ in range(n):
+        L = r.choice([1000.0, 512.0, 100.0, 730.0])
+        k = r.choice([2, 3])
+        m = r.choice([1, 2, 3, 4, 5])
+        g = r.choice([4e-6, 1e-6, 2e-7])
+        if g * L < 1e-4:   # keep the absolute gap far above the monitor's Eps (4 / FS = 1.5e-5)
+            g = 4e-6
+        dt = L / m * (1 - g)
+        under, over = r.choice([(0.7, 1.3), (0.5, 1.5), (0.9, 2.0)])
+        out.append(dict(sched=[j * L for j in range(k + 1)], dt_init=dt, dt_min=L / 1000, dt_max=dt, under=under, over=over,
+                        recomp=r.choice([0.5, 0.3, 0.75]), recomp_max=r.randint(1, 4), near_miss=True))
+    return out
+
+
+def _float_runs(r, cfg, n_scripts):
+    import porepy as pp
+
+    if True:
         nodes, edges, index = [], [], {}
 
         def proj(tm, phase):
@@ -316,8 +349,7 @@ def float_family(ctx, n_cfg, n_scripts):
                     edges.append([])
                     edges[n - 1].append(dict(act, **res, dst=m))
                 n = m
-        jobs.append((cfg, dict(nodes=nodes, edges=edges, truncated=False, cut=[p["phase"] in ("ready", "solving") for p in nodes])))
-    return jobs
+        return dict(nodes=nodes, edges=edges, truncated=False, cut=[p["phase"] in ("ready", "solving") for p in nodes])
 
 
 def judge_float(ctx, idx, cfg, g):
@@ -365,7 +397,8 @@ def run(ctx):
     ctx.exhaustive = not any(o["graph"]["truncated"] for o in outs)
     ctx.extra["configurations"] = len(cfgs)
     # second family: arbitrary (non-dyadic) float parameters, random scripts, clauses judged within a tolerance
-    fj = float_family(ctx, 12 if ctx.quick else 100, 40 if ctx.quick else 120)
+    fj = float_family(ctx, 12 if ctx.quick else 100, 40 if ctx.quick else 120,
+                      presets=near_miss_configs(ctx.rng, 6 if ctx.quick else 30))
     with ThreadPoolExecutor(4) as pool:
         list(pool.map(lambda t: judge_float(ctx, t[0], t[1][0], t[1][1]), enumerate(fj)))
     ctx.extra["float_configurations"] = len(fj)
